@@ -11,7 +11,9 @@ package main
 //       q  signed by prevSecret, nbf = T+1, no exp       (valid from T+1 for ever, also after the reset)
 //       s  signed by secret,     no time claims          (always valid)
 //     and two tampered copies of each:  x~ = one signature bit flipped,  x^ = time claims edited to
-//     "valid for ever" (exp 9999999999 / nbf 0) under the ORIGINAL signature;
+//     "valid for ever" (exp 9999999999 / nbf 0) under the ORIGINAL signature; every genuine token has
+//     its own non-standard claim names (a: uid,scope  b: uid,grp  p: uid,tenant  q: uid  s: n) and the
+//     edited copies carry claims the genuine ones lack (role, lvl, dept) and lack some they have;
 //   - clock jumps:  +1s (crosses exp of a,p and nbf of b,q; a second one crosses exp of b) and
 //     +25h (crosses every exp and the parser's 24 h history-reset duration).
 //
@@ -23,13 +25,17 @@ package main
 //
 // Oracle, in every state: the independent verifier of jwt.go evaluated at the CURRENT virtual
 // time - handler runs <=> signature verifies under secret/prevSecret and exp/nbf hold now; 401
-// otherwise; on success the context carries the token's own non-standard claims.
+// otherwise; on success the context carries EXACTLY the accepted token's own non-standard claims:
+// every claim name of the family is probed, a name of an earlier request's token showing up is
+// class seq-jwt-claims-leaked-from-earlier-request.
 //
 // The parser lives inside the closure of Authorize, so nothing is merged: key = the history.
 // Because the clock is process-global, histories run in worker processes (vlib.RunShards), one
 // history at a time per process; a shard = all histories with a given first operation.
 
 import (
+	"encoding/base64"
+	"encoding/json"
 	"fmt"
 	"strings"
 	"time"
@@ -49,13 +55,40 @@ type histTokDef struct{ name, signer, alg, pay, edited string }
 
 func histTokDefs() []histTokDef {
 	t := jwtNow
+	// Every token has its OWN set of non-standard claim names; the edited copies carry claims the
+	// genuine tokens lack (role, lvl, dept, uid for s) and lack claims the genuine ones have.
 	return []histTokDef{
-		{"a", "s", "HS256", fmt.Sprintf(`{"uid":"a","exp":%d}`, t+1), `{"uid":"a","exp":9999999999}`},
-		{"b", "s", "HS384", fmt.Sprintf(`{"uid":"b","nbf":%d,"exp":%d}`, t+1, t+2), `{"uid":"b","nbf":0,"exp":9999999999}`},
-		{"p", "prev", "HS256", fmt.Sprintf(`{"uid":"p","exp":%d}`, t+1), `{"uid":"p","exp":9999999999}`},
-		{"q", "prev", "HS512", fmt.Sprintf(`{"uid":"q","nbf":%d}`, t+1), `{"uid":"q","nbf":0}`},
-		{"s", "s", "HS256", `{"uid":"s"}`, `{"uid":"root"}`},
+		{"a", "s", "HS256", fmt.Sprintf(`{"uid":"a","scope":"read","exp":%d}`, t+1), `{"uid":"a","role":"admin","exp":9999999999}`},
+		{"b", "s", "HS384", fmt.Sprintf(`{"uid":"b","grp":"g1","nbf":%d,"exp":%d}`, t+1, t+2), `{"uid":"b","role":"admin","lvl":9,"nbf":0,"exp":9999999999}`},
+		{"p", "prev", "HS256", fmt.Sprintf(`{"uid":"p","tenant":"t1","exp":%d}`, t+1), `{"uid":"p","role":"admin","exp":9999999999}`},
+		{"q", "prev", "HS512", fmt.Sprintf(`{"uid":"q","nbf":%d}`, t+1), `{"uid":"q","dept":"x","nbf":0}`},
+		{"s", "s", "HS256", `{"n":7}`, `{"uid":"root","role":"admin"}`},
 	}
+}
+
+// claimNamesOf: the non-standard claim names in the payload of the (single, Bearer) token of auth.
+func claimNamesOf(auth []string) map[string]bool {
+	out := map[string]bool{}
+	if len(auth) != 1 {
+		return out
+	}
+	parts := strings.Split(strings.TrimPrefix(auth[0], "Bearer "), ".")
+	if len(parts) != 3 {
+		return out
+	}
+	pb, err := base64.RawURLEncoding.DecodeString(parts[1])
+	if err != nil {
+		return out
+	}
+	var m map[string]any
+	if json.Unmarshal(pb, &m) == nil {
+		for k := range m {
+			if !isStdClaim(k) {
+				out[k] = true
+			}
+		}
+	}
+	return out
 }
 
 // histAuths: op -> Authorization header values, for one configuration.
@@ -137,7 +170,18 @@ func runHist(cfg jwtCfg, ops []string) ([]histStep, *pending) {
 				siblingRan = true
 			}
 		}
+		leaked := false
+		if p.Class == "jwt-context-extra-claim" {
+			for i, s := range steps[:len(steps)-1] {
+				if !s.Jump && claimNamesOf(auths[ops[i]])[p.Detail] {
+					leaked = true
+				}
+			}
+		}
 		switch {
+		case leaked:
+			// the extra name is a claim of a token presented EARLIER on this middleware instance
+			p.Class, qual = "jwt-claims-leaked-from-earlier-request", ""
 		case strings.HasPrefix(p.Class, "jwt-accept:") && sameRan:
 			qual = ":reused-token" // the same raw token was accepted earlier in this history
 		case strings.HasPrefix(p.Class, "jwt-accept:") && siblingRan:
@@ -145,7 +189,9 @@ func runHist(cfg jwtCfg, ops []string) ([]histStep, *pending) {
 		case p.Class == "jwt-valid-token-rejected" && sameRejected:
 			qual = ":after-rejected-use" // the same raw token was (rightly) rejected earlier in this history
 		}
-		p.Class = "seq-" + p.Class + qual
+		if !strings.HasPrefix(p.Class, "panic:") {
+			p.Class = "seq-" + p.Class + qual
+		}
 		p.Replay = replayCase{Family: "hist", Hist: &histCase{Cfg: cfg, Ops: append([]string(nil), ops...)}}
 		p.Desc = fmt.Sprintf("after history [%s] on one Authorize instance (virtual time now = T%+ds): %s", strings.Join(ops, " "), curNowOf(steps)-jwtNow, p.Desc)
 	}
